@@ -6,7 +6,7 @@ from harness import scenario, run
 from checks import acct
 
 
-def make(prop, components, clauses, gen, quick=(96, 8), thorough=(1600, 40), rule='', assumptions=(), coq=(), gen_mods=()):
+def make(prop, components, clauses, gen, quick=(96, 8), thorough=(1600, 40), rule='', assumptions=(), coq=(), gen_mods=(), analyser=None, prelude=None):
     def owned_case(meta):
         return any(meta['component'].startswith(c) for c in components)
 
@@ -14,7 +14,7 @@ def make(prop, components, clauses, gen, quick=(96, 8), thorough=(1600, 40), rul
         return any(h['clause'].startswith(c) for c in clauses)
 
     def analyse_one(scn, out):
-        cx = acct.analyse(scn, out)
+        cx = (analyser or acct.analyse)(scn, out)
         cases = [c for c in cx.cases if owned_case(c[1])]
         hits = [h for h in cx.hits if owned_hit(h)]
         return cx, cases, hits
@@ -72,7 +72,7 @@ def make(prop, components, clauses, gen, quick=(96, 8), thorough=(1600, 40), rul
     base_coq = ['Model/Num.v', 'Model/Costs.v', 'Model/Position.v', 'Model/Account.v', 'Model/AccountRun.v', 'Model/Reserve.v',
                 'Model/Closable.v', 'Model/Portfolio.v', 'Model/Check.v', 'Proofs/NumFacts.v', 'Proofs/PositionFacts.v',
                 'Proofs/AccountFacts.v', 'Properties/%s.v' % prop]
-    return dict(PROP=prop, GEN=list(gen_mods), COQ=base_coq + list(coq), PRELUDE=acct.PRELUDE, RULE=rule, ASSUMPTIONS=list(assumptions),
+    return dict(PROP=prop, GEN=list(gen_mods), COQ=base_coq + list(coq), PRELUDE=prelude or acct.PRELUDE, RULE=rule, ASSUMPTIONS=list(assumptions),
                 TRUSTED=[], plan=plan, work=work, replay=replay)
 
 
